@@ -73,3 +73,47 @@ Example C02_named_fails_at_the_fault :
                                 mkNop (OInsert 1%N 11%N ∅) (Some 5%N); mkNop (OSelect 1%N [] []) None]))
   = [(1, 10%N); (2, 1%N); (5, 0%N); (6, 0%N)].
 Proof. vm_compute. reflexivity. Qed.
+
+(** the request as the server receives it ([server_transact]): an operation
+    that cannot be decoded fails where it stands. The reply has one result
+    per operation of the request, results, then one error - at the operation
+    that cannot be decoded, with the class of a syntax error, when all before
+    it succeeded, whatever the checks made at the end of a transaction would
+    have said about them - then nothing; nothing is committed *)
+From LOV Require Import Db.Request.
+
+Theorem C02_request_decodable : forall S d args,
+  length (decoded_prefix args) = length args ->
+  server_transact S d args = transact_named S d (decoded_prefix args).
+Proof. exact request_decodable. Qed.
+Print Assumptions C02_request_decodable.
+
+Theorem C02_request_reply_shape : forall S d args rs r,
+  length (decoded_prefix args) < length args ->
+  server_transact S d args = (rs, r) ->
+  r = None /\ length rs = length args /\
+  exists i e, i <= length (decoded_prefix args) /\
+    Forall good (take i rs) /\ rs !! i = Some (RErr e) /\
+    drop (Datatypes.S i) rs = replicate (length args - i - 1) RNull /\
+    (i = length (decoded_prefix args) -> e = EOther).
+Proof. exact request_reply_shape. Qed.
+Print Assumptions C02_request_reply_shape.
+
+Theorem C02_request_undecodable_has_error : forall S d args,
+  length (decoded_prefix args) < length args ->
+  has_error (fst (server_transact S d args)) = true /\ snd (server_transact S d args) = None.
+Proof. exact request_undecodable_has_error. Qed.
+Print Assumptions C02_request_undecodable_has_error.
+
+(** the premises are met, on the input of the slip this model was extended for: two rows that collide in an index
+    (the transaction of the two inserts alone ends with a constraint violation after its results), then an operation
+    that cannot be decoded - the reply is [uuid; uuid; error], the error in third place *)
+Example C02_request_syntax_error_not_commit_check :
+  let S := mkSchema [mkTable 1%N [mkCol 2%N (mkColTy KAtom (mkBase TStr [] None) None 1 (Some 1)) true] [[2%N]] true] in
+  let ins u := mkNop (OInsert 1%N u {[ 2%N := VAtom (AStr 7%N) ]}) None in
+  (map (fun r => match r with RUuid u => (1, u) | RErr EConstraint => (4, 0%N) | RErr _ => (5, 0%N) | RNull => (6, 0%N) | _ => (0, 0%N) end)
+       (fst (transact_named S ∅ [ins 10%N; ins 11%N])),
+   map (fun r => match r with RUuid u => (1, u) | RErr EConstraint => (4, 0%N) | RErr _ => (5, 0%N) | RNull => (6, 0%N) | _ => (0, 0%N) end)
+       (fst (server_transact S ∅ [Some (ins 10%N); Some (ins 11%N); None; Some (ins 12%N)])))
+  = ([(1, 10%N); (1, 11%N); (4, 0%N)], [(1, 10%N); (1, 11%N); (5, 0%N); (6, 0%N)]).
+Proof. vm_compute. reflexivity. Qed.
